@@ -279,6 +279,7 @@ type remServer struct {
 	srv   *http.Server
 	port  int
 	state remStep
+	resv  int // while the listener is closed ("refuse"): a socket bound to the port but not listening (0 = none)
 }
 
 func (rs *remServer) handler(w http.ResponseWriter, r *http.Request) {
@@ -361,7 +362,37 @@ func (rs *remServer) handler(w http.ResponseWriter, r *http.Request) {
 	}
 }
 
+// reserve: bind (without listening) a socket to the server's port.  Connections to it are refused, and no
+// other sequence's server — they run in parallel and ask the kernel for any free port — can be given the
+// port while this sequence believes nobody listens there.
+func (rs *remServer) reserve() {
+	if rs.port == 0 || rs.resv != 0 {
+		return
+	}
+	for i := 0; i < 40; i++ {
+		fd, err := syscall.Socket(syscall.AF_INET, syscall.SOCK_STREAM, 0)
+		if err != nil {
+			return
+		}
+		syscall.SetsockoptInt(fd, syscall.SOL_SOCKET, syscall.SO_REUSEADDR, 1)
+		if err = syscall.Bind(fd, &syscall.SockaddrInet4{Port: rs.port, Addr: [4]byte{127, 0, 0, 1}}); err == nil {
+			rs.resv = fd
+			return
+		}
+		syscall.Close(fd)
+		time.Sleep(5 * time.Millisecond)
+	}
+}
+
+func (rs *remServer) release() {
+	if rs.resv != 0 {
+		syscall.Close(rs.resv)
+		rs.resv = 0
+	}
+}
+
 func (rs *remServer) listen() error {
+	rs.release()
 	addr := fmt.Sprintf("127.0.0.1:%d", rs.port)
 	var ln net.Listener
 	var err error
@@ -388,6 +419,7 @@ func (rs *remServer) close() {
 	if rs.srv != nil {
 		rs.srv.Close()
 		rs.srv, rs.ln = nil, nil
+		rs.reserve()
 	}
 }
 
@@ -733,7 +765,7 @@ func remEvalOnce(d remCase, work string) (impl string, err error) {
 	if e := rr.srv.listen(); e != nil {
 		return "", errInconclusive{"listen: " + e.Error()}
 	}
-	defer rr.srv.close()
+	defer func() { rr.srv.close(); rr.srv.release() }()
 	for u := 0; u < remURLs; u++ {
 		scheme := "http"
 		if u == 2 {
@@ -1009,8 +1041,10 @@ func (c *Ctx) remChainStep(prev *remStep, pty bool, au, bu int, stallBudget *int
 	switch x := r.Intn(100); {
 	case x < 10:
 		s.URL = bu
-	case x < 15: // some other plain URL sharing the cache directory
-		s.URL = remHTTP[r.Intn(len(remHTTP))]
+	case x < 15: // some other plain URL sharing the cache directory (not URL 5: url.JoinPath cleans its doubled slash
+		// away, so RemoteExists' probes for default Taskfile names under it are requests under URL 0, which a
+		// chain step may serve differently from the step's own URL)
+		s.URL = []int{0, 1, 3, 4}[r.Intn(4)]
 	}
 	s.Inc = 0
 	if s.URL == au {
